@@ -13,7 +13,8 @@ RULE = ("every well-posed network (exact decision per class) of the listed level
         "orientation (branch ids ascending with the listing position for even-parity orientation masks, descending for odd) x every reference node x palette; for each: every scale factor in {2,-1,j,1/2+j,1e-3,4e9}, every subset "
         "of the source set kept active through the library's own zeroing operations with keep lists (all 2^k subsets, "
         "k<=4), and the all-off network; states = distinct networks judged, transitions = library solves judged; "
-        "non-trivial = network with a non-zero solution")
+        "non-trivial = network with a non-zero solution"
+        ' Additions: palettes eq, small, mixed; the other sources are also removed (passive_network(keep=[one])) and every surviving passive branch compared with the zeroing path.')
 ASSUMPTIONS = ["numpy.linalg accuracy on the palettes", "the exact model is used only for the domain decision and the natural scale"]
 EXPLANATION = "two-run relations on the real solver and the real source-zeroing transformers"
 SCALES = [2, -1, 1j, 0.5 + 1j, 1e-3, 4e9]
